@@ -115,20 +115,24 @@ Proof. exact corrupt_tx_vlen_refuted_any_hash. Qed.
 Print Assumptions C09_corrupt_tx_vlen_refuted.
 
 (* Values: read with the committed (length, digest) pair from ANY bytes at ANY offset of any value
-   log: an error, or exactly the committed value, or a collision. *)
+   log, with ANY content of the value cache (entries are stored before validation, so after a failed
+   read of altered bytes the cache holds them): an error, or exactly the committed value, or a
+   collision. A cache hit goes through the same length-and-digest test as a read from the log. *)
 Theorem C09_corrupt_value_detected :
-  forall (H : bytes -> bytes) (v : bytes) (mvl : N) (mode : vmode) (txlog : bytes) (vlogs : list bytes)
-         (off : N) (v' : bytes),
-  read_value H mvl mode txlog vlogs (len v) off (H v) = Ok v' -> v' = v \/ Collision H.
+  forall H : bytes -> bytes, (forall x, length (H x) = 32%nat) ->
+  forall (v : bytes) (mvl : N) (mode : vmode) (txlog : bytes) (vlogs : list bytes)
+         (c : option vcache) (off : N) (v' : bytes),
+  fst (read_value H mvl mode txlog vlogs c (len v) off (H v)) = Ok v' -> v' = v \/ Collision H.
 Proof. exact corrupt_value_detected. Qed.
 Print Assumptions C09_corrupt_value_detected.
 
 (* Values through an altered record (vLen', vOff' arbitrary, digest committed): an error, or the
    committed value, or the EMPTY value when vLen' = 0, or a collision. *)
 Theorem C09_corrupt_entry_value_partial :
-  forall (H : bytes -> bytes) (v : bytes) (mvl : N) (mode : vmode) (txlog : bytes) (vlogs : list bytes)
-         (vlen' off' : N) (v' : bytes),
-  read_value H mvl mode txlog vlogs vlen' off' (H v) = Ok v' ->
+  forall H : bytes -> bytes, (forall x, length (H x) = 32%nat) ->
+  forall (v : bytes) (mvl : N) (mode : vmode) (txlog : bytes) (vlogs : list bytes)
+         (c : option vcache) (vlen' off' : N) (v' : bytes),
+  fst (read_value H mvl mode txlog vlogs c vlen' off' (H v)) = Ok v' ->
   v' = v \/ (vlen' = 0 /\ v' = []) \/ Collision H.
 Proof. exact corrupt_entry_value_partial. Qed.
 Print Assumptions C09_corrupt_entry_value_partial.
@@ -139,18 +143,20 @@ Print Assumptions C09_corrupt_entry_value_partial.
    (Full chain on a concrete record — one flipped bit, ReadTx ok, ReadValue = empty — in
    Corrupt/Witness.v: corrupt_entry_value_refuted.) *)
 Theorem C09_corrupt_entry_value_refuted :
-  forall (H : bytes -> bytes) (v : bytes) (mvl : N) (mode : vmode) (txlog : bytes) (vlogs : list bytes) (off : N),
-  v <> [] -> exists v', read_value H mvl mode txlog vlogs 0 off (H v) = Ok v' /\ v' <> v.
+  forall (H : bytes -> bytes) (v : bytes) (mvl : N) (mode : vmode) (txlog : bytes) (vlogs : list bytes)
+         (c : option vcache) (off : N),
+  v <> [] -> exists v', fst (read_value H mvl mode txlog vlogs c 0 off (H v)) = Ok v' /\ v' <> v.
 Proof. exact corrupt_entry_value_refuted_any_hash. Qed.
 Print Assumptions C09_corrupt_entry_value_refuted.
 
 (* ExportTx: when values are exported (flag "truncated" off) they are the committed ones, whatever
    vLen/vOff the record carried, or a collision. *)
 Theorem C09_export_values_sound :
-  forall (H : bytes -> bytes) (mvl : N) (mode : vmode) (txlog : bytes) (vlogs : list bytes)
-         (es : list entry) (vs : list bytes) (i : N) (l : list bytes),
+  forall H : bytes -> bytes, (forall x, length (H x) = 32%nat) ->
+  forall (mvl : N) (mode : vmode) (txlog : bytes) (vlogs : list bytes)
+         (es : list entry) (vs : list bytes) (c : option vcache) (i : N) (l : list bytes),
   map e_hval es = map H vs ->
-  export_values H true mvl mode txlog vlogs es i false = Ok (false, l) -> l = vs \/ Collision H.
+  fst (export_values H true mvl mode txlog vlogs c es i false) = Ok (false, l) -> l = vs \/ Collision H.
 Proof. exact export_values_sound. Qed.
 Print Assumptions C09_export_values_sound.
 
@@ -159,7 +165,7 @@ Print Assumptions C09_export_values_sound.
    by retention": the export succeeds with the digest in place of the value, no error. *)
 Theorem C09_export_values_refuted :
   forall (H : bytes -> bytes) (hval : bytes),
-  export_values H true 64 VSingle [] [w_vlog] [w_entry [107; 49] 2 (w_voff + 100) hval] 0 false
+  fst (export_values H true 64 VSingle [] [w_vlog] None [w_entry [107; 49] 2 (w_voff + 100) hval] 0 false)
     = Ok (true, [hval]).
 Proof. exact export_eof_as_truncated. Qed.
 Print Assumptions C09_export_values_refuted.
@@ -177,16 +183,16 @@ Print Assumptions C09_read_tx_no_panic.
    data: with MaxIOConcurrency = 1 and no embedded values its one value log exists. *)
 Theorem C09_read_value_no_panic :
   forall (H : bytes -> bytes) (mvl : N) (mode : vmode) (txlog : bytes) (vlogs : list bytes)
-         (vlen off : N) (hval : bytes),
-  vlogs_present mode vlogs -> read_value H mvl mode txlog vlogs vlen off hval <> Panic.
+         (c : option vcache) (vlen off : N) (hval : bytes),
+  vlogs_present mode vlogs -> fst (read_value H mvl mode txlog vlogs c vlen off hval) <> Panic.
 Proof. exact read_value_no_panic. Qed.
 Print Assumptions C09_read_value_no_panic.
 
 (* ... and so does the value loop of ExportTx. *)
 Theorem C09_export_values_no_panic :
   forall (H : bytes -> bytes) (chk : bool) (mvl : N) (mode : vmode) (txlog : bytes) (vlogs : list bytes),
-  vlogs_present mode vlogs -> forall (es : list entry) (i : N) (trunc : bool),
-  export_values H chk mvl mode txlog vlogs es i trunc <> Panic.
+  vlogs_present mode vlogs -> forall (es : list entry) (c : option vcache) (i : N) (trunc : bool),
+  fst (export_values H chk mvl mode txlog vlogs c es i trunc) <> Panic.
 Proof. exact export_values_no_panic. Qed.
 Print Assumptions C09_export_values_no_panic.
 
